@@ -57,6 +57,26 @@ def chain_scenario(length, rtc, coro=False):
                       {"op": "call", "i": 1, "api": "send", "ev": "tick", "gv": {}, "budget": length}]}
 
 
+def fanout_scenario(n, coro=False):
+    """One callback sends n events in one go: all of them wait in the queue at once and then run in the order sent."""
+    d = {"name": "Fan",
+         "states": [{"id": "s0", "initial": True, "final": False}, {"id": "s1", "initial": False, "final": False},
+                    {"id": "s2", "initial": False, "final": False}],
+         "trans": [{"src": "s0", "tgt": "s1", "evs": ["go"], "internal": False},
+                   {"src": "s1", "tgt": "s2", "evs": ["tick"], "internal": False},
+                   {"src": "s2", "tgt": "s1", "evs": ["tick"], "internal": False},
+                   {"src": "s2", "tgt": "s2", "evs": ["tock"], "internal": False}],
+         "initial": "s0", "evlist": ["go", "tick", "tock"],
+         "cbs": [{"okind": "T", "owner": "", "tix": 1, "group": "on", "prov": "sm", "coro": coro, "style": "name", "ret": "r1"},
+                 {"okind": "GT", "owner": "", "tix": 0, "group": "after", "prov": "sm", "coro": False}]}
+    opt = {"rtc": True, "allow": True, "start": "", "budget": n}
+    # (tock is only enabled in s2: whether each one fires depends on how many ticks ran before it - order matters)
+    sends = [("tock" if k % 3 == 2 else "tick") for k in range(n)]
+    return {"classes": [d], "script": {"1": sends}, "budget": n, "ni": 3, "driver": "sync", "timeout": 120,
+            "steps": [{"op": "new", "i": 1, "cls": 1, "opt": opt, "stored": "", "provs": ["sm"], "gv": {}},
+                      {"op": "call", "i": 1, "api": "send", "ev": "go", "gv": {}, "budget": n}]}
+
+
 def check_chain_depth(chk, scn, res, rtc):
     """Harness-side corollary of InvRTCNoNesting: constant Python stack depth along the chain."""
     lines = res["lines"]
@@ -111,9 +131,12 @@ def run(pid, tier, seed, replay):
                        {"scenario": scn})
             continue
         check_chain_depth(chk, scn, res, rtc)
-    ec.run_validate(chk, [s for s, _ in chains], "run to completion: long chains", shards=len(chains))
+    fans = [fanout_scenario(1500), fanout_scenario(1100, coro=True)] if quick else [
+        fanout_scenario(3000), fanout_scenario(1500, coro=True), fanout_scenario(1025)]
+    ec.run_validate(chk, [s for s, _ in chains] + fans, "run to completion: long chains and wide fan-outs",
+                    shards=len(chains) + len(fans))
     ec.nonrtc_leg(chk, rng, 250 if quick else 4000, shards=2 if quick else 8)
     chk.coverage["rule"] = ("family: <=3 states, <=4 callbacks, nested sends from any callback (budget 2), all orders; random: "
                             "1-4 sending callbacks per machine in any group incl. initial enter, fan-out, both engines, "
-                            "rtc on/off; chains of 1500..5000 self-triggered events")
+                            "rtc on/off; chains of 1500..5000 self-triggered events; 1000-3000 events sent by ONE callback, all queued at once")
     return chk.finish()
